@@ -51,4 +51,119 @@ def t_C16_CaseFold():
     return emit("C16_CaseFold", body)
 
 
-TABLES = {"C16_CaseFold": t_C16_CaseFold}
+# ---------------------------------------------------------------------------
+# C16_Sre: the data CPython's `re` uses for `re.escape`, for parsing an escaped
+# pattern back into literals and for compiling a literal under IGNORECASE:
+#   re._special_chars_map (re.escape), re._parser.{SPECIAL_CHARS, ESCAPES,
+#   CATEGORIES, ASCIILETTERS, DIGITS} (sre parser), _sre.unicode_tolower,
+#   _sre.unicode_iscased, re._casefix._EXTRA_CASES (sre compiler / matcher).
+# coq/Model/C16_Regex.v defines escape / parse / compile / one-character match
+# over them.  Fail-closed: the relation these tables define is compared here
+# with what `re` itself does (every cased pattern character against every
+# character that any table mentions; harness/c16.py repeats the comparison
+# against ALL of Unicode in the thorough tier).
+
+def sre_tables():
+    import _sre
+    from re import _casefix, _parser
+    try:
+        special = sorted(re._special_chars_map)
+        for k in special:
+            if re._special_chars_map[k] != "\\" + chr(k):
+                die("re._special_chars_map[%d] is %r" % (k, re._special_chars_map[k]))
+        sre_special = sorted(ord(c) for c in _parser.SPECIAL_CHARS)
+        escapes = []
+        for k, v in sorted(_parser.ESCAPES.items()):
+            if len(k) != 2 or k[0] != "\\" or str(v[0]) != "LITERAL":
+                die("unexpected ESCAPES entry %r: %r" % (k, v))
+            escapes.append((ord(k[1]), int(v[1])))
+        cats = []
+        for k in sorted(_parser.CATEGORIES):
+            if len(k) != 2 or k[0] != "\\":
+                die("unexpected CATEGORIES key %r" % (k,))
+            cats.append(ord(k[1]))
+        letters = sorted(ord(c) for c in _parser.ASCIILETTERS)
+        digits = sorted(ord(c) for c in _parser.DIGITS)
+        lower = [(c, _sre.unicode_tolower(c)) for c in range(0x110000) if _sre.unicode_tolower(c) != c]
+        cased = [c for c in range(0x110000) if _sre.unicode_iscased(c)]
+        extra = sorted((int(k), [int(x) for x in v]) for k, v in _casefix._EXTRA_CASES.items())
+    except (AttributeError, KeyError, TypeError, ValueError) as e:
+        die("CPython's re internals have an unexpected shape: %r" % (e,))
+    if not (1000 < len(lower) < 3000 and 2000 < len(cased) < 6000 and 10 < len(extra) < 200):
+        die("unexpected table sizes %d %d %d" % (len(lower), len(cased), len(extra)))
+    return dict(special=special, sre_special=sre_special, escapes=escapes, cats=cats, letters=letters,
+                digits=digits, lower=lower, cased=cased, extra=extra)
+
+
+def sre_rel(T):
+    """The one-character relation the tables define (mirror of ceq_sre in Model/C16_Regex.v)."""
+    lower, cased, extra = dict(T["lower"]), set(T["cased"]), dict(T["extra"])
+
+    def rel(p, t):
+        if p not in cased:
+            return p == t
+        lo = lower.get(p, p)
+        lt = lower.get(t, t)
+        return lt == lo or lt in extra.get(lo, ())
+    return rel
+
+
+def sre_mentioned(T):
+    s = set(T["cased"])
+    for a, b in T["lower"]:
+        s.add(a)
+        s.add(b)
+    for k, v in T["extra"]:
+        s.add(k)
+        s.update(v)
+    return s
+
+
+def check_sre_rel(T, patterns, texts):
+    """-> first (p, t) on which `re` and the table relation differ, or None.
+    The row {t : rel(p, t)} is computed through an index of the texts by their
+    lower-case image (rel(p, t) <=> lower(t) in {lower(p)} + extra[lower(p)])."""
+    lower, cased, extra = dict(T["lower"]), set(T["cased"]), dict(T["extra"])
+    texts = sorted(texts)
+    tset = set(texts)
+    hay = "".join(chr(c) for c in texts)
+    inv = {}
+    for t in texts:
+        inv.setdefault(lower.get(t, t), []).append(t)
+    for p in patterns:
+        got = set(ord(x) for x in re.compile(re.escape(chr(p)), re.IGNORECASE).findall(hay))
+        if p not in cased:
+            want = {p} & tset
+        else:
+            lo = lower.get(p, p)
+            want = set(inv.get(lo, ()))
+            for f in extra.get(lo, ()):
+                want.update(inv.get(f, ()))
+        if got != want:
+            return (p, min(got ^ want))
+    return None
+
+
+def t_C16_Sre():
+    T = sre_tables()
+    ment = sre_mentioned(T) | set(range(0x250)) | set(ord(c) for c in UNCASED)
+    bad = check_sre_rel(T, T["cased"] + [ord(c) for c in UNCASED] + list(range(0x80)), ment)
+    if bad:
+        die("re.IGNORECASE and the relation defined by _sre.unicode_tolower/unicode_iscased/_EXTRA_CASES differ on pattern %r text %r" % (chr(bad[0]), chr(bad[1])))
+    body = "(* keys of re._special_chars_map: the characters re.escape puts a backslash before *)\n"
+    body += "Definition c16_re_special : list Z :=\n  %s.\n\n" % zlist(T["special"])
+    body += "(* re._parser.SPECIAL_CHARS *)\nDefinition c16_sre_special : list Z :=\n  %s.\n\n" % zlist(T["sre_special"])
+    body += "(* re._parser.ESCAPES: character after the backslash -> LITERAL value *)\n"
+    body += "Definition c16_sre_escapes : list (Z * Z) :=\n  [%s].\n\n" % "; ".join("(%d, %d)" % e for e in T["escapes"])
+    body += "(* re._parser.CATEGORIES: characters after the backslash *)\nDefinition c16_sre_categories : list Z :=\n  %s.\n\n" % zlist(T["cats"])
+    body += "Definition c16_sre_asciiletters : list Z :=\n  %s.\n\n" % zlist(T["letters"])
+    body += "Definition c16_sre_digits : list Z :=\n  %s.\n\n" % zlist(T["digits"])
+    body += "(* _sre.unicode_tolower where it is not the identity *)\n"
+    body += "Definition c16_sre_lower : list (Z * Z) :=\n  [%s].\n\n" % "; ".join("(%d, %d)" % e for e in T["lower"])
+    body += "(* _sre.unicode_iscased *)\nDefinition c16_sre_cased : list Z :=\n  %s.\n\n" % zlist(T["cased"])
+    body += "(* re._casefix._EXTRA_CASES *)\n"
+    body += "Definition c16_sre_extra : list (Z * list Z) :=\n  [%s].\n" % "; ".join("(%d, %s)" % (k, zlist(v)) for k, v in T["extra"])
+    return emit("C16_Sre", body)
+
+
+TABLES = {"C16_CaseFold": t_C16_CaseFold, "C16_Sre": t_C16_Sre}
